@@ -688,7 +688,7 @@ token list, well-formed or not.  Since every right-hand side calls the parser on
 next level, the equations determine the function: this is the equivalence with the grammar, short of packaging it
 as one equality with a separately defined grammar function. -/
 
-private theorem hS_tac (q hi lv : Nat) (h : ∀ o : Op, isBin (.op o) = true → stops (.op o) hi = true →
+theorem level_side_ops (q hi lv : Nat) (h : ∀ o : Op, isBin (.op o) = true → stops (.op o) hi = true →
     stops (.op o) q = false → prec (.op o) = lv) :
     ∀ t, isBin t = true → stops t hi = true → stops t q = false → prec t = lv := by
   intro t hb
@@ -700,7 +700,7 @@ private theorem hS_tac (q hi lv : Nat) (h : ∀ o : Op, isBin (.op o) = true →
   | rp => exact absurd hb (by decide)
   | junk => simp [isBin] at hb
 
-private theorem hstop_tac (q lv : Nat) (h : ∀ o : Op, stops (.op o) lv = true → stops (.op o) q = true) :
+theorem level_side_stop (q lv : Nat) (h : ∀ o : Op, stops (.op o) lv = true → stops (.op o) q = true) :
     ∀ t, stops t lv = true → stops t q = true ∨ isBin t = false := by
   intro t hs
   cases t with
@@ -719,24 +719,24 @@ theorem grammar_level_logical (fl : Flags) (ts : List Tok) :
     parsePrim fl (prec (.op .and)) ts
       = (parsePrim fl (prec (.op .eq)) ts).bind (levelStep fl (prec (.op .and)) (prec (.op .and))) := by
   constructor
-  · exact level_eq fl _ _ _ (by decide) (hS_tac _ _ _ (by intro o; cases o <;> decide))
-      (hstop_tac _ _ (by intro o; cases o <;> decide)) ts
-  · exact level_eq fl _ _ _ (by decide) (hS_tac _ _ _ (by intro o; cases o <;> decide))
-      (hstop_tac _ _ (by intro o; cases o <;> decide)) ts
+  · exact level_eq fl _ _ _ (by decide) (level_side_ops _ _ _ (by intro o; cases o <;> decide))
+      (level_side_stop _ _ (by intro o; cases o <;> decide)) ts
+  · exact level_eq fl _ _ _ (by decide) (level_side_ops _ _ _ (by intro o; cases o <;> decide))
+      (level_side_stop _ _ (by intro o; cases o <;> decide)) ts
 
 /-- `L5 := L6 (relop L5)?` -/
 theorem grammar_level_relational (fl : Flags) (ts : List Tok) :
     parsePrim fl (prec (.op .eq)) ts
       = (parsePrim fl (prec (.op .contains)) ts).bind (levelStep fl (prec (.op .eq)) (prec (.op .eq))) :=
-  level_eq fl _ _ _ (by decide) (hS_tac _ _ _ (by intro o; cases o <;> decide))
-    (hstop_tac _ _ (by intro o; cases o <;> decide)) ts
+  level_eq fl _ _ _ (by decide) (level_side_ops _ _ _ (by intro o; cases o <;> decide))
+    (level_side_stop _ _ (by intro o; cases o <;> decide)) ts
 
 /-- `L6 := prefix (contains L6)?` -/
 theorem grammar_level_contains (fl : Flags) (ts : List Tok) :
     parsePrim fl (prec (.op .contains)) ts
       = (parsePrim fl (prec .not) ts).bind (levelStep fl (prec (.op .contains)) (prec (.op .contains))) :=
-  level_eq fl _ _ _ (by decide) (hS_tac _ _ _ (by intro o; cases o <;> decide))
-    (hstop_tac _ _ (by intro o; cases o <;> decide)) ts
+  level_eq fl _ _ _ (by decide) (level_side_ops _ _ _ (by intro o; cases o <;> decide))
+    (level_side_stop _ _ (by intro o; cases o <;> decide)) ts
 
 /-- `prefix := operand | ( L1 ) | not L1` — at the highest precedence nothing is appended to the prefix. -/
 theorem grammar_prefix (fl : Flags) (r : List Tok) :
